@@ -33,9 +33,8 @@ def find_fn(src, name, vmem=False):
         # attributes directly attached to this fn
         am = re.search(r'((?:\s*#\[[^\]]*\]\s*)*)(?:pub(?:\([a-z]+\))?\s+)?(?:unsafe\s+)?$', pre)
         attrs = am.group(1) if am else ''
-        is_vmem = re.search(r'#\[cfg\(feature\s*=\s*"vmem"\)\]', attrs) is not None
-        if is_vmem != vmem and (is_vmem or re.search(r'#\[cfg\(not\(feature\s*=\s*"vmem"\)\)\]', attrs) or not vmem):
-            if is_vmem != vmem: continue
+        tag = 'vmem' if re.search(r'#\[cfg\(feature\s*=\s*"vmem"\)\]', attrs) else ('novmem' if re.search(r'#\[cfg\(not\(feature\s*=\s*"vmem"\)\)\]', attrs) else 'both')
+        if tag == ('novmem' if vmem else 'vmem'): continue
         i = src.index('{', m.end()); d = 0; j = i
         # the signature may contain `{` only in the body
         while True:
@@ -117,7 +116,7 @@ class P:
             if name == 'Result':
                 s.eat('<'); a = s.ty(); s.eat(','); b = s.ty(); s.eat('>'); return ('res', a, b)
             s.skip_generics()
-            if name in ('WorkableSlice', 'NonWorkableSlice'): return ('tuple', ['slice', 'slice'])
+            if name in ('WorkableSlice', 'NonWorkableSlice'): return 'slice' if getattr(s, 'vmem', False) else ('tuple', ['slice', 'slice'])
         if name == 'usize': return 'nat'
         if name == 'bool': return 'bool'
         if name == 'T' or name in getattr(s, 'item_tys', ()): return 'val'
@@ -347,7 +346,7 @@ def cv(name): return name + '_' if name in RESERVED else name
 class Gen:
     """CPS code generation: expr(e, k) builds the monadic term; k receives a PURE Coq term and its kind"""
     def __init__(s, known, selfname):
-        s.n = 0; s.known = known; s.env = {}; s.selfname = selfname; s.uses_fuel = False
+        s.n = 0; s.known = known; s.env = {}; s.selfname = selfname; s.uses_fuel = False; s.vmem = False
     def fresh(s, p='v'): s.n += 1; return f'{p}{s.n}'
     def bind(s, rhs, kind, k):
         v = s.fresh(); return f'{v} <~ {rhs} ;; ' + k(v, kind)
@@ -469,7 +468,7 @@ class Gen:
                     return s.expr(e[2][0], lambda a, ka: k(f'({p[0]} {a})', ('opt', ka) if p == ['Some'] else '?'))
                 if p[-1] == 'transmute' and len(e[2]) == 1: return s.expr(e[2][0], k)
                 if p[-1] in ('from_raw_parts', 'from_raw_parts_mut') and len(e[2]) == 2:
-                    return s.expr(e[2][0], lambda a, _: s.expr(e[2][1], lambda n, __: s.bind(f'raw_parts {a} {n}', 'slice', k)))
+                    return s.expr(e[2][0], lambda a, _: s.expr(e[2][1], lambda n, __: s.bind(('raw_parts_v' if s.vmem else 'raw_parts') + f' {a} {n}', 'slice', k)))
                 if p[-1] == 'check_zeroed' and len(e[2]) == 1:
                     return s.expr(e[2][0], lambda a, _: s.bind(f'check_zeroed E {a}', 'bool', k))
                 if p == ['copy_from_slice_unchecked'] and len(e[2]) == 2:
@@ -668,17 +667,18 @@ FUNS = [
     ('iterators/sync_iterators/cons_iter.rs', 'clone_slice'),
 ]
 
-def translate(repo):
+def translate(repo, vmem=False):
     out = []; problems = []; known = {}
     srcs = {}
     for f, fn in FUNS:
         path = os.path.join(repo, 'src', f)
         try:
             if f not in srcs: srcs[f] = strip_comments(open(path).read())
-            txt = find_fn(srcs[f], fn)
-            item = P(lex(txt)).fn_item()
+            txt = find_fn(srcs[f], fn, vmem)
+            pp = P(lex(txt)); pp.vmem = vmem
+            item = pp.fn_item()
             _, name, params, ret, body = item
-            g = Gen(known, name)
+            g = Gen(known, name); g.vmem = vmem
             for pn, pk in params: g.env[pn] = pk
             code = g.block(body)
             ps = ' '.join(f'({cv(pn)} : {coq_ty(pk)})' for pn, pk in params)
@@ -771,7 +771,16 @@ def main(repo, outdir):
     for p in problems: lines.append(f'(* PROBLEM: {p} *)')
     os.makedirs(outdir, exist_ok=True)
     open(os.path.join(outdir, 'DataFns.v'), 'w').write('\n'.join(lines) + '\n')
-    return problems
+    # the same functions as compiled with --features vmem (next_chunk*, _push_slice, _extract_slice have their own bodies there)
+    vdefs, vproblems = translate(repo, vmem=True)
+    vlines = ['(* GENERATED by tools/data_translate.py from /repo/src on every run (the bodies compiled with feature vmem) - do not edit *)',
+              'From Coq Require Import List Arith NArith Bool String.', 'Import ListNotations.',
+              'Require Import MRB.Model.Types MRB.Model.Seq MRB.Model.KernelM MRB.Model.DataM MRB.gen.Kernels.',
+              'Open Scope dm_scope.', ''] + vdefs
+    vlines.append(f'Definition data_clean : bool := {"true" if not vproblems else "false"}.')
+    for p in vproblems: vlines.append(f'(* PROBLEM: {p} *)')
+    open(os.path.join(outdir, 'DataFnsV.v'), 'w').write('\n'.join(vlines) + '\n')
+    return problems + ['vmem: ' + p for p in vproblems]
 
 if __name__ == '__main__':
     import sys
